@@ -20,9 +20,9 @@ inductive Just (w : World) (entries : List Nat) : Task → Prop
       findLocalExport (w.mod m) n = some p → Just w entries (.local m p.2)
   | nameFrom {m n : Nat} {p : Nat × Nat × Nat} : Just w entries (.reqName m n) → ownExport (w.mod m) n = none →
       findLocalExport (w.mod m) n = none → findFrom (w.mod m) n = some p → Just w entries (.reqName p.2.1 p.2.2)
-  | nameStar {m n x : Nat} : Just w entries (.reqName m n) → ownExport (w.mod m) n = none →
+  | nameStar {m n d : Nat} {edges : List (Nat × Nat)} : Just w entries (.reqName m n) → ownExport (w.mod m) n = none →
       findLocalExport (w.mod m) n = none → findFrom (w.mod m) n = none →
-      starProvider w (w.mod m) n = some x → Just w entries (.reqName x n)
+      findPath w m n = some (edges, d) → Just w entries (.reqName d n)
   | localDecl {m l : Nat} {d : Decl} : Just w entries (.local m l) → findDecl (w.mod m) l = some d →
       Just w entries (.decl m d.name)
   | localImport {m l : Nat} {p : Nat × Nat × Nat} : Just w entries (.local m l) → findDecl (w.mod m) l = none →
@@ -121,7 +121,7 @@ theorem inv2_step (w : World) (entries : List Nat) (s : State) (t : Task) (rest 
               · exact Or.inr (Just.nameFrom ht hd hp hq))
           · rename_i hq
             split
-            · rename_i x hsp
+            · rename_i edges d hsp
               exact key _ rfl rfl (fun u hu => by
                 simp only [List.mem_append, List.mem_singleton] at hu
                 rcases hu with hu | rfl
